@@ -108,7 +108,13 @@ func (l tlift) enumGo(width string, id int) reflect.Value {
 var tDbl = []float64{1.5, -2, math.Inf(1), math.SmallestNonzeroFloat64, 1e300}
 var tStr = []string{"a", "héllo", strings.Repeat("x", 200), "\x00\xff", "k", strings.Repeat("y", 127), strings.Repeat("z", 128)}
 
+// salt >= tBigSalt: the BIG lifting - every BINARY value is several thousand bytes long (readers treat byte
+// sequences above 4096 bytes separately), later ones shorter than earlier ones, contents distinct
 type tlift struct{ salt int }
+
+const tBigSalt = 2000
+
+var tBigLens = []int{9000, 5000, 6000, 4097, 4096}
 
 func (l tlift) idx(id, n int) int { return (id - 1 + l.salt) % n }
 
@@ -144,6 +150,10 @@ func (l tlift) scalar(ty string, id int) any {
 	case "BINARY":
 		if id == 0 {
 			return ""
+		}
+		if l.salt >= tBigSalt {
+			n := tBigLens[(id-1)%len(tBigLens)]
+			return strings.Repeat(string(rune('a'+id%26)), n-1) + string(rune('A'+(l.salt+id)%26))
 		}
 		return tStr[l.idx(id, len(tStr))]
 	}
